@@ -57,7 +57,15 @@ def run_cases(ctx, cases, prefix, canary=None, only=None):
         if only and case.name not in only:
             continue
 
+        bad_paths = []
+
         def thunk(case=case):
+            try:
+                body(case)
+            except Unmodelled as e:
+                bad_paths.append((list(vc.pc), str(e)[:200]))
+
+        def body(case):
             ins = {}
             for n, shape, dom in case.inputs:
                 ins[n] = G.inp(n, shape, frozen=n not in case.mutates, domain=dom)
@@ -127,13 +135,27 @@ def run_cases(ctx, cases, prefix, canary=None, only=None):
                     ctx.generic_skipped = getattr(ctx, "generic_skipped", []) + [(case.name, "not decided by normal form: %s" % str(why)[:160])]
                     del vc.results[k]
             done.append((case.name, npaths))
+            if bad_paths:
+                raise Unmodelled(bad_paths[0][1])
         except Unmodelled as e:
             # outside the modelled fragment of front end G: no shape-generic certificate for this function (the
             # per-shape proof of the same property still stands); recorded, never counted
             npaths = vc.paths - p0
             vc.results = {k: v for k, v in vc.results.items() if not k.startswith(pre)}
-            if npaths > 1:
-                # ... unless the code branches on a size: the enumerated shapes cannot vouch for the other branch
+            if npaths > 1 and bad_paths:
+                # ... unless the code branches on a size: the enumerated shapes cannot vouch for the other branch.  The
+                # branch is then decided by running the real code at the smallest sizes that reach it (bounded, labelled)
+                for pc, why in bad_paths[:3]:
+                    nm = pre + "a branch taken only for some sizes is outside the modelled fragment"
+                    pr = _probe(ctx, case, pc)
+                    if pr and pr.get("mismatch"):
+                        vc._record(nm + ": real code at the smallest sizes of that branch vs the contract (bounded)", "violated",
+                                   "real code %r, contract %r at element %s for sizes %s" % (pr["code_value"], pr["contract_value"], pr["element"], pr["sizes"]),
+                                   pr, 0.0, "size-fork + concrete run (bounded)")
+                    else:
+                        vc._record(nm, "undecided", "unmodelled on a size-dependent path: %s%s" % (
+                            why, "; the real code agrees with the contract at sizes %s" % (pr["sizes"],) if pr else ""), None, 0.0, "tensor-normal-form")
+            elif npaths > 1:
                 vc._record(pre + "a branch taken only for some sizes is outside the modelled fragment", "undecided",
                            "unmodelled on a size-dependent path: %s" % str(e)[:200], None, 0.0, "tensor-normal-form")
             else:
@@ -179,6 +201,66 @@ def _cross_check(ctx, vc, case, want):
         rec.setdefault("skipped", []).append((case.name, repr(e)[:120]))
 
 
+def _probe(ctx, case, pc):
+    """Run the real function with floats at the smallest sizes that satisfy the path condition pc and compare with the
+    contract evaluated numerically there.  Returns a witness dict (mismatch True/False) or None."""
+    import random
+    out = {}
+    vc2 = astvc.VC(ctx)
+    vc2.probe = True
+
+    def run():
+        ins = {}
+        for n, shape, dom in case.inputs:
+            ins[n] = G.inp(n, shape, frozen=False, domain=dom)
+        before = {n: G.val_of(t) for n, t in ins.items()}
+        G.INPUT_FIX[0] = case.fix
+        for c in pc:
+            try:
+                vc2.assume(astvc.SymBool(c))
+            except Exception:
+                return
+        want = case.spec(**before)
+        if isinstance(want, Raises) or want is None:
+            return
+        wants = list(want) if isinstance(want, (tuple, list)) else [want]
+        sizes_l = G._sizes_from_model(vc2, 1, pc=pc)
+        if not sizes_l:
+            return
+        sizes = sizes_l[0]
+        if max(sizes.values()) > 5000:
+            return
+        rnd = random.Random(11)
+        tensors = G.draw_inputs(sizes, rnd)
+        real_in = {n: torch.tensor(tensors[n], dtype=torch.double) for n, _s, _d in case.inputs}
+        saved = (torch.zeros, torch.ones)
+        try:
+            torch.zeros, torch.ones = G.REAL_FACTORIES
+            res = case.call(**real_in)
+        finally:
+            torch.zeros, torch.ones = saved
+        ress = list(res) if isinstance(res, (tuple, list)) else [res]
+        out.update({"sizes": sizes, "inputs": {k: v.tolist() for k, v in tensors.items()}, "mismatch": False})
+        for j, (r, w) in enumerate(zip(ress, wants)):
+            if isinstance(w, str):
+                continue
+            exp = G.eval_val(w, sizes, tensors)
+            got = r.detach().numpy() if isinstance(r, torch.Tensor) else np.asarray(float(r))
+            if got.shape != exp.shape:
+                out.update({"mismatch": True, "element": [], "component": j, "code_value": list(got.shape), "contract_value": list(exp.shape)})
+                return
+            bad = np.argwhere(~np.isclose(got, exp, rtol=1e-7, atol=1e-9))
+            if len(bad):
+                idx = tuple(int(x) for x in bad[0])
+                out.update({"mismatch": True, "element": list(idx), "component": j, "code_value": float(got[idx]), "contract_value": float(exp[idx])})
+                return
+    try:
+        G.explore(vc2, run, "probe")
+    except Exception as e:       # the probe is an aid; it must never turn into a verdict by crashing
+        return None
+    return out or None
+
+
 def replay_case(cases, o):
     """Replay a violated shape-generic obligation on the real code with floats: sizes and inputs of the witness."""
     w = o.get("witness") or {}
@@ -197,7 +279,7 @@ def replay_case(cases, o):
     if isinstance(res, (tuple, list)):
         import re
         m = re.search(r"component (\d+)", o["name"])
-        res = res[int(m.group(1))] if m else res[0]
+        res = res[int(m.group(1))] if m else res[int(w.get("component", 0))]
     m2 = [n for n, _s, _d in case.inputs if ("input %s unchanged" % n) in o["name"]]
     if m2:
         res = ins[m2[0]]
